@@ -5,7 +5,8 @@ from ..gtlib import cq, cvec, cmat, cb3, cbool, cseq, jarr, Obs
 from . import common as C, lin
 
 PROP = "C03"
-PROPS_FILE = "props/C03.v"
+PROPS_FILE = ["props/C03.v", "props/GI3.v"]
+TRUSTED_EXTRA = ["props/GI3.v (first and second order Wick expectations as iterated improper Riemann integrals, at Coq's real numbers: stdlib Reals + Coquelicot + base/RField.v) depends on the standard-library axioms ClassicalDedekindReals.sig_not_dec, sig_forall_dec, FunctionalExtensionality.functional_extensionality_dep, Classical_Prop.classic, Epsilon.epsilon_statement; the theorems of props/C03.v (every real field) stay closed under the global context"]
 RULE = ("cases = 12 polynomial keys x coefficient mode {shared 2-D/1-D, per-component 3-D/2-D, mixed, defaulted matrix or "
         "vector} x shapes D in 1..6, pairwise different K,L,M in 1..5, R in 1..3; exact mode: GaussianPDF with integer Sigma, "
         "mu and integer coefficients (results are integers < 2^53, compared bit for bit), tolerance mode: un-normalised "
